@@ -314,7 +314,7 @@ Proof.
   destruct C1o1 as [C1 o1]. cbn [fst] in P1.
   destruct (q_owner q) as [d|p]; [exact P1|].
   destruct (nth_error (c_ops C1) p) as [[k al rid ph]|]; [|exact P1].
-  destruct ph as [rest i' h'| | |]; try exact P1.
+  destruct ph as [rest i' h'| | | |]; try exact P1.
   destruct (Nat.eqb i i' && Nat.eqb h h'); [|exact P1].
   destruct (if q_to q then RTimedOut else res_of oc);
     try (pose proof (op_known_PB rest C1 p rid P1) as X; destruct (op_known C1 p rid rest); exact X).
@@ -459,8 +459,12 @@ Lemma succ1_PB C p f : PB C -> PB (fst (succ1 C p f)).
 Proof.
   intro P. unfold succ1. destruct (nth_error (c_ops C) p) as [o|]; [|exact P].
   assert (PB (set_phase C p PDone)) as P1 by (eapply PB_bcs; [|exact P]; reflexivity).
-  destruct (o_kind o =? 1); [|exact P1]. destruct (closing (set_phase C p PDone)); [exact P1|].
-  pose proof (merge_PB _ (drop 4 f) (o_all o) P1) as X. destruct (merge (set_phase C p PDone) (drop 4 f) (o_all o)). exact X.
+  destruct (o_kind o =? 1).
+  - destruct (closing (set_phase C p PDone)); [exact P1|].
+    pose proof (merge_PB _ (drop 4 f) (o_all o) P1) as X. destruct (merge (set_phase C p PDone) (drop 4 f) (o_all o)). exact X.
+  - destruct (is_ltp (o_kind o)); [|exact P1]. destruct (closing (set_phase C p PDone)); [exact P1|].
+    pose proof (merge_PB _ (drop 4 f) false P1) as X. destruct (merge (set_phase C p PDone) (drop 4 f) false) as [C2 o2]. cbn [fst] in X.
+    destruct (missing (drop 4 f)); [|exact X]. unfold new_timer. cbn [fst]. eapply PB_bcs; [|exact X]. reflexivity.
 Qed.
 
 Lemma ev_bc_PB C i e : not_fire e = true -> PB C -> PB (fst (ev_bc C i e)).
@@ -472,12 +476,14 @@ Proof.
   set (X := match nth_error (c_ops C) p with
             | Some (mkOp _ _ _ (PBootConn a rest)) => let (C', o') := boot_next (set_boot C a KDead) p rest in (C', OBootCancel a :: o')
             | Some (mkOp _ _ _ (PBootReq a t rest)) => let (C', o') := boot_next C p rest in (C', OCancelTimer t :: OBootLose a :: o')
+            | Some (mkOp _ _ _ (PWait t)) => let (C', o') := op_fail C p RCancelled in (C', OCancelTimer t :: o')
             | _ => (C, []) end).
   assert (PB (fst X)) as P1.
   { unfold X. destruct (nth_error (c_ops C) p) as [[k al rid ph]|]; [|exact P]. destruct ph; try exact P.
     - pose proof (boot_next_bcs (set_boot C a KDead) p rest) as Y. destruct (boot_next (set_boot C a KDead) p rest). cbn [fst] in *.
       eapply PB_bcs; [exact Y|]. eapply PB_bcs; [|exact P]. reflexivity.
-    - pose proof (boot_next_bcs C p rest) as Y. destruct (boot_next C p rest). cbn [fst] in *. eapply PB_bcs; [exact Y | exact P]. }
+    - pose proof (boot_next_bcs C p rest) as Y. destruct (boot_next C p rest). cbn [fst] in *. eapply PB_bcs; [exact Y | exact P].
+    - pose proof (op_fail_bcs C p RCancelled) as Y. destruct (op_fail C p RCancelled). cbn [fst] in *. eapply PB_bcs; [exact Y | exact P]. }
   destruct X as [C1 o1]. cbn [fst] in P1. pose proof (IH C1 (S p) P1) as Y. destruct (cancel_boots C1 n (S p)). exact Y.
 Qed.
 
@@ -512,7 +518,7 @@ Proof.
   - apply ev_bc_PB; [reflexivity | exact P].
   - apply ev_bc_PB; [reflexivity | exact P].
   - (* ETimer *)
-    destruct (nth_error (c_timers C) t) as [[i h|i|p a]|]; [| | |exact P].
+    destruct (nth_error (c_timers C) t) as [[i h|i|p a|p]|]; [| | | |exact P].
     + unfold creq_at. destruct (nth_error (c_bcs C) i) as [b|]; [|exact P].
       destruct (nth_error (b_reqs b) h) as [[ow [t'|] to]|]; try exact P.
       destruct (Nat.eqb t t'); [|exact P].
@@ -529,6 +535,10 @@ Proof.
       * intros b' Hb'. cbn [upd_bc with_bcs c_bcs] in Hb'. rewrite (nth_upd_same _ _ _ _ Eb) in Hb'. injection Hb' as <-. reflexivity.
     + destruct (phase_of C p); try exact P. destruct (Nat.eqb a a0 && Nat.eqb t t0); [|exact P].
       pose proof (boot_next_PB C p rest P) as Y. destruct (boot_next C p rest). exact Y.
+    + destruct (phase_of C p); try exact P. destruct (Nat.eqb t t0); [|exact P]. unfold next_id. cbn [fst snd].
+      set (C1 := with_corr C _). set (C2 := restart_op C1 p _).
+      assert (PB C2) as P2 by (eapply PB_bcs; [|exact P]; reflexivity).
+      destruct (c_clients C2); [apply op_known_PB; exact P2 | apply op_fail_PB; exact P2].
   - (* EBootOk *)
     destruct (nth_error (c_boots C) a) as [[[p rid] [| |]]|]; try exact P.
     destruct (phase_of C p); try exact P. destruct (Nat.eqb a a0); [|exact P].
